@@ -110,3 +110,317 @@ Print Assumptions C04_run_meets_spec.
 Theorem C04_leaf_functions_are_the_source : C04_LeafTie.C04_leaf_functions_are_the_source_stmt.
 Proof. exact C04_LeafTie.C04_leaf_functions_are_the_source. Qed.
 Print Assumptions C04_leaf_functions_are_the_source.
+
+(* --------------------------------------------------------------------------------------------------------------
+   The table code of the model IS the source: every member function of MemoryLeakDetectorList as tools/cxx2heap.py regenerates it from MemoryLeakDetector.cpp on every run (gen/Gen_HeapC04.v; objects are blocks of cells of lib/CHeap.v, C04_HeapRep.v says how a heap represents a bucket: node_cells / chain / list_at, with the cell order pinned to the class definition), run on a heap that represents a model bucket, returns the pointer / number that represents the model function's result and, for the storing functions, a heap that represents the model's new bucket -- every block outside the list left unchanged, no access outside the objects (FOk), termination within a fuel just above the bucket length
+   -------------------------------------------------------------------------------------------------------------- *)
+From CppUVerif Require Import lib.CSem lib.CMem lib.CHeap gen.Gen_HeapC04 C04_HeapRep C04_HeapList C04_HeapListW.
+Local Open Scope Z_scope.
+Theorem C04_node_layout_is_the_source :
+  off_MemoryLeakDetectorNode_size_ = Z0 /\
+  off_MemoryLeakDetectorNode_number_ = Zpos 1 /\
+  off_MemoryLeakDetectorNode_memory_ = Zpos 2 /\
+  off_MemoryLeakDetectorNode_file_ = Zpos 3 /\
+  off_MemoryLeakDetectorNode_line_ = Zpos 4 /\
+  off_MemoryLeakDetectorNode_allocator_ = Zpos 5 /\
+  off_MemoryLeakDetectorNode_period_ = Zpos 6 /\
+  off_MemoryLeakDetectorNode_allocation_stage_ = Zpos 7 /\
+  off_MemoryLeakDetectorNode_next_ = Zpos 8 /\
+  cells_MemoryLeakDetectorNode = Zpos 9 /\
+  off_MemoryLeakDetectorList_head_ = Z0 /\
+  cells_MemoryLeakDetectorList = Zpos 1 /\
+  off_MemoryLeakDetectorTable_table_ = Z0 /\ cells_MemoryLeakDetectorTable = BinInt.Z.of_N hash_prime.
+Proof. exact node_layout_is_the_source. Qed.
+Print Assumptions C04_node_layout_is_the_source.
+
+Theorem C04_src_list_isInPeriod_spec :
+  forall (fuel : nat) (h : heap) (this : hptr) (b : nat) (n : node) (nxt : hptr) (p : period),
+  hblock h b = node_cells n nxt ->
+  src_list_isInPeriod fuel h this (HPtr b Z0) (period_code p) = FOk (b2z (is_in_period n p)).
+Proof. exact src_list_isInPeriod_spec. Qed.
+Print Assumptions C04_src_list_isInPeriod_spec.
+
+Theorem C04_src_list_isInAllocationStage_spec :
+  forall (fuel : nat) (h : heap) (this : hptr) (b : nat) (n : node) (nxt : hptr) (s : N),
+  hblock h b = node_cells n nxt ->
+  src_list_isInAllocationStage fuel h this (HPtr b Z0) (BinInt.Z.of_N s) = FOk (b2z (is_in_stage n s)).
+Proof. exact src_list_isInAllocationStage_spec. Qed.
+Print Assumptions C04_src_list_isInAllocationStage_spec.
+
+Theorem C04_src_list_getLeakFrom_spec :
+  forall (fuel : nat) (h : heap) (this p : hptr) (bs : list nat) (ns : list node) (per : period),
+  chain h p bs ns ->
+  length ns < fuel ->
+  src_list_getLeakFrom fuel h this p (period_code per) =
+  FOk (ptr_first (fun n : node => is_in_period n per) bs ns).
+Proof. exact src_list_getLeakFrom_spec. Qed.
+Print Assumptions C04_src_list_getLeakFrom_spec.
+
+Theorem C04_src_list_getLeakForAllocationStageFrom_spec :
+  forall (fuel : nat) (h : heap) (this p : hptr) (bs : list nat) (ns : list node) (s : N),
+  chain h p bs ns ->
+  length ns < fuel ->
+  src_list_getLeakForAllocationStageFrom fuel h this p (BinInt.Z.of_N s) =
+  FOk (ptr_first (fun n : node => is_in_stage n s) bs ns).
+Proof. exact src_list_getLeakForAllocationStageFrom_spec. Qed.
+Print Assumptions C04_src_list_getLeakForAllocationStageFrom_spec.
+
+Theorem C04_ptr_first_none :
+  forall (f : node -> bool) (bs : list nat) (ns : list node),
+  length bs = length ns -> ptr_first f bs ns = HNull <-> l_leak_from f ns = None.
+Proof. exact ptr_first_none. Qed.
+Print Assumptions C04_ptr_first_none.
+
+Theorem C04_ptr_first_some :
+  forall (h : heap) (f : node -> bool) (ns : list node) (p : hptr) (bs : list nat) (n : node),
+  chain h p bs ns ->
+  l_leak_from f ns = Some n ->
+  exists (b : nat) (nxt : hptr), ptr_first f bs ns = HPtr b Z0 /\ In b bs /\ hblock h b = node_cells n nxt.
+Proof. exact ptr_first_some. Qed.
+Print Assumptions C04_ptr_first_some.
+
+Theorem C04_src_list_getFirstLeak_spec :
+  forall (fuel : nat) (h : heap) (this : hptr) (bs : list nat) (ns : bucket) (per : period),
+  list_at h this bs ns ->
+  length ns < fuel ->
+  src_list_getFirstLeak fuel h this (period_code per) =
+  FOk (ptr_first (fun n : node => is_in_period n per) bs ns).
+Proof. exact src_list_getFirstLeak_spec. Qed.
+Print Assumptions C04_src_list_getFirstLeak_spec.
+
+Theorem C04_src_list_getFirstLeakForAllocationStage_spec :
+  forall (fuel : nat) (h : heap) (this : hptr) (bs : list nat) (ns : bucket) (s : N),
+  list_at h this bs ns ->
+  length ns < fuel ->
+  src_list_getFirstLeakForAllocationStage fuel h this (BinInt.Z.of_N s) =
+  FOk (ptr_first (fun n : node => is_in_stage n s) bs ns).
+Proof. exact src_list_getFirstLeakForAllocationStage_spec. Qed.
+Print Assumptions C04_src_list_getFirstLeakForAllocationStage_spec.
+
+Theorem C04_src_list_getNextLeak_spec :
+  forall (fuel : nat) (h : heap) (this p : hptr) (bs : list nat) (ns : list node) (k : nat) (per : period),
+  chain h p bs ns ->
+  k < length ns ->
+  length ns < fuel ->
+  src_list_getNextLeak fuel h this (HPtr (nth k bs 0) Z0) (period_code per) =
+  FOk (ptr_first (fun n : node => is_in_period n per) (skipn (S k) bs) (skipn (S k) ns)).
+Proof. exact src_list_getNextLeak_spec. Qed.
+Print Assumptions C04_src_list_getNextLeak_spec.
+
+Theorem C04_src_list_getNextLeakForAllocationStage_spec :
+  forall (fuel : nat) (h : heap) (this p : hptr) (bs : list nat) (ns : list node) (k : nat) (s : N),
+  chain h p bs ns ->
+  k < length ns ->
+  length ns < fuel ->
+  src_list_getNextLeakForAllocationStage fuel h this (HPtr (nth k bs 0) Z0) (BinInt.Z.of_N s) =
+  FOk (ptr_first (fun n : node => is_in_stage n s) (skipn (S k) bs) (skipn (S k) ns)).
+Proof. exact src_list_getNextLeakForAllocationStage_spec. Qed.
+Print Assumptions C04_src_list_getNextLeakForAllocationStage_spec.
+
+Theorem C04_l_after_skipn :
+  forall (d : node) (ns : list node) (k : nat),
+  NoDup (map n_addr ns) -> k < length ns -> l_after (n_addr (nth k ns d)) ns = skipn (S k) ns.
+Proof. exact l_after_skipn. Qed.
+Print Assumptions C04_l_after_skipn.
+
+Theorem C04_src_list_getTotalLeaks_spec :
+  forall (fuel : nat) (h : heap) (this : hptr) (bs : list nat) (ns : bucket) (per : period),
+  list_at h this bs ns ->
+  length ns < fuel ->
+  BinInt.Z.lt (BinInt.Z.of_nat (length ns)) (BinInt.Z.pow (Zpos 2) (Zpos 64)) ->
+  src_list_getTotalLeaks fuel h this (period_code per) = FOk (BinInt.Z.of_N (l_total per ns)).
+Proof. exact src_list_getTotalLeaks_spec. Qed.
+Print Assumptions C04_src_list_getTotalLeaks_spec.
+
+Theorem C04_src_list_retrieveNode_spec :
+  forall (fuel : nat) (h : heap) (this : hptr) (bs : list nat) (ns : bucket) (a : N),
+  list_at h this bs ns ->
+  length ns < fuel -> src_list_retrieveNode fuel h this (BinInt.Z.of_N a) = FOk (ptr_of a bs ns).
+Proof. exact src_list_retrieveNode_spec. Qed.
+Print Assumptions C04_src_list_retrieveNode_spec.
+
+Theorem C04_ptr_of_none :
+  forall (a : N) (bs : list nat) (ns : list node),
+  length bs = length ns -> ptr_of a bs ns = HNull <-> l_retrieve a ns = None.
+Proof. exact ptr_of_none. Qed.
+Print Assumptions C04_ptr_of_none.
+
+Theorem C04_ptr_of_some :
+  forall (h : heap) (a : N) (ns : list node) (p : hptr) (bs : list nat) (n : node),
+  chain h p bs ns ->
+  l_retrieve a ns = Some n ->
+  exists (b : nat) (nxt : hptr), ptr_of a bs ns = HPtr b Z0 /\ In b bs /\ hblock h b = node_cells n nxt.
+Proof. exact ptr_of_some. Qed.
+Print Assumptions C04_ptr_of_some.
+
+Theorem C04_src_list_addNewNode_full :
+  forall (fuel : nat) (h : heap) (this : hptr) (bs : list nat) (ns : bucket) (b : nat) (n : node) (nxt0 : hptr),
+  list_at h this bs ns ->
+  node_ok n ->
+  b < length h ->
+  ~ In b bs ->
+  match this with
+  | HNull => True
+  | HPtr bt _ => b <> bt
+  end ->
+  hblock h b = node_cells n nxt0 ->
+  exists (h' : heap) (hd : hptr),
+  src_list_addNewNode fuel h this (HPtr b Z0) = FOk (tt, h') /\
+  list_at h' this (b :: bs) (l_add n ns) /\
+  length h' = length h /\
+  hload_ptr h this = Some hd /\
+  hblock h' b = node_cells n hd /\
+  (forall b' : nat,
+  b' <> b -> match this with
+  | HNull => True
+  | HPtr bt _ => b' <> bt
+  end -> hblock h' b' = hblock h b') /\
+  match this with
+  | HNull => True
+  | HPtr bt i =>
+  forall k : nat, k <> BinInt.Z.to_nat i -> nth_error (hblock h' bt) k = nth_error (hblock h bt) k
+  end.
+Proof. exact src_list_addNewNode_full. Qed.
+Print Assumptions C04_src_list_addNewNode_full.
+
+Theorem C04_src_list_removeNode_complete :
+  forall (fuel : nat) (h : heap) (this : hptr) (bs : list nat) (ns : bucket) (a : N),
+  list_at h this bs ns ->
+  length ns < fuel ->
+  exists (h' : heap) (bs' : list nat),
+  src_list_removeNode fuel h this (BinInt.Z.of_N a) = FOk (ptr_of a bs ns, h') /\
+  list_at h' this bs' (snd (l_remove a ns)) /\
+  length h' = length h /\
+  (forall b' : nat,
+  match this with
+  | HNull => True
+  | HPtr bt _ => b' <> bt
+  end -> ~ In b' bs' -> hblock h' b' = hblock h b') /\
+  (forall x : nat, In x bs' <-> In x bs /\ ptr_of a bs ns <> HPtr x Z0) /\
+  (forall b : nat, ptr_of a bs ns = HPtr b Z0 -> hblock h' b = hblock h b) /\
+  match fst (l_remove a ns) with
+  | Some n =>
+  exists (b : nat) (nxt : hptr), ptr_of a bs ns = HPtr b Z0 /\ In b bs /\ hblock h' b = node_cells n nxt
+  | None => ptr_of a bs ns = HNull
+  end /\
+  match this with
+  | HNull => True
+  | HPtr bt i =>
+  forall k : nat, k <> BinInt.Z.to_nat i -> nth_error (hblock h' bt) k = nth_error (hblock h bt) k
+  end.
+Proof. exact src_list_removeNode_complete. Qed.
+Print Assumptions C04_src_list_removeNode_complete.
+
+Theorem C04_l_remove_fst :
+  forall (a : N) (ns : bucket), fst (l_remove a ns) = l_retrieve a ns.
+Proof. exact l_remove_fst. Qed.
+Print Assumptions C04_l_remove_fst.
+
+Theorem C04_src_list_clearAllAccounting_complete :
+  forall (fuel : nat) (h : heap) (this : hptr) (bs : list nat) (ns : bucket) (per : period),
+  list_at h this bs ns ->
+  length ns < fuel ->
+  exists h' : heap,
+  src_list_clearAllAccounting fuel h this (period_code per) = FOk (tt, h') /\
+  list_at h' this (w_bkeep per bs ns) (l_clear per ns) /\
+  length h' = length h /\
+  l_clear per ns = filter (fun c : node => negb (is_in_period c per)) ns /\
+  (forall b' : nat,
+  match this with
+  | HNull => True
+  | HPtr bt _ => b' <> bt
+  end -> ~ In b' (w_bkeep per bs ns) -> hblock h' b' = hblock h b') /\
+  (forall b : nat,
+  In b (w_bkeep per bs ns) -> forall k : nat, k <> 8 -> nth_error (hblock h' b) k = nth_error (hblock h b) k) /\
+  match this with
+  | HNull => True
+  | HPtr bt i =>
+  forall k : nat, k <> BinInt.Z.to_nat i -> nth_error (hblock h' bt) k = nth_error (hblock h bt) k
+  end.
+Proof. exact src_list_clearAllAccounting_complete. Qed.
+Print Assumptions C04_src_list_clearAllAccounting_complete.
+
+(* --------------------------------------------------------------------------------------------------------------
+   ... and the storing member functions of MemoryLeakDetectorTable (the 73 head cells of block bt, table_at): the bucket is chosen by the translated hash, the list-level theorem is applied to that bucket, and table_at is re-established (table_at_update)
+   -------------------------------------------------------------------------------------------------------------- *)
+From CppUVerif Require Import C04_HeapTableW.
+Local Open Scope Z_scope.
+Theorem C04_src_table_addNewNode_full :
+  forall (fuel : nat) (h : heap) (bt : nat) (bss : list (list nat)) (t : table) (b : nat)
+  (n : node) (nxt0 : hptr),
+  table_at h bt bss t ->
+  node_ok n ->
+  b < length h ->
+  ~ In b (concat bss) ->
+  b <> bt ->
+  hblock h b = node_cells n nxt0 ->
+  exists (h' : heap) (hd : hptr),
+  src_table_addNewNode fuel h (HPtr bt Z0) (HPtr b Z0) = FOk (tt, h') /\
+  table_at h' bt (tw_set (hashN (n_addr n)) (b :: nth (hashN (n_addr n)) bss []) bss) (t_add n t) /\
+  length h' = length h /\
+  hload_ptr h (HPtr bt (BinInt.Z.of_nat (hashN (n_addr n)))) = Some hd /\
+  hblock h' b = node_cells n hd /\
+  (forall b' : nat, b' <> b -> b' <> bt -> hblock h' b' = hblock h b') /\
+  (forall k : nat, k <> hashN (n_addr n) -> nth_error (hblock h' bt) k = nth_error (hblock h bt) k).
+Proof. exact src_table_addNewNode_full. Qed.
+Print Assumptions C04_src_table_addNewNode_full.
+
+Theorem C04_src_table_removeNode_complete :
+  forall (fuel : nat) (h : heap) (bt : nat) (bss : list (list nat)) (t : table) (a : N),
+  table_at h bt bss t ->
+  (a < 2 ^ 64)%N ->
+  length (nth (hashN a) t []) < fuel ->
+  exists (h' : heap) (bsi' : list nat),
+  src_table_removeNode fuel h (HPtr bt Z0) (BinInt.Z.of_N a) =
+  FOk (ptr_of a (nth (hashN a) bss []) (nth (hashN a) t []), h') /\
+  table_at h' bt (tw_set (hashN a) bsi' bss) (snd (t_remove a t)) /\
+  length h' = length h /\
+  (forall b' : nat, b' <> bt -> ~ In b' bsi' -> hblock h' b' = hblock h b') /\
+  (forall x : nat,
+  In x bsi' <->
+  In x (nth (hashN a) bss []) /\ ptr_of a (nth (hashN a) bss []) (nth (hashN a) t []) <> HPtr x Z0) /\
+  (forall b : nat,
+  ptr_of a (nth (hashN a) bss []) (nth (hashN a) t []) = HPtr b Z0 -> hblock h' b = hblock h b) /\
+  match fst (t_remove a t) with
+  | Some n =>
+  exists (b : nat) (nxt : hptr),
+  ptr_of a (nth (hashN a) bss []) (nth (hashN a) t []) = HPtr b Z0 /\
+  In b (nth (hashN a) bss []) /\ hblock h' b = node_cells n nxt
+  | None => ptr_of a (nth (hashN a) bss []) (nth (hashN a) t []) = HNull
+  end /\ (forall k : nat, k <> hashN a -> nth_error (hblock h' bt) k = nth_error (hblock h bt) k).
+Proof. exact src_table_removeNode_complete. Qed.
+Print Assumptions C04_src_table_removeNode_complete.
+
+Theorem C04_src_table_clearAllAccounting_full :
+  forall (fuel : nat) (h : heap) (bt : nat) (bss : list (list nat)) (t : table) (per : period),
+  table_at h bt bss t ->
+  (forall i : nat, i < nbuckets -> length (nth i t []) < fuel) ->
+  73 < fuel ->
+  exists (h' : heap) (bss' : list (list nat)),
+  src_table_clearAllAccounting fuel h (HPtr bt Z0) (period_code per) = FOk (tt, h') /\
+  table_at h' bt bss' (t_clear per t) /\
+  length h' = length h /\
+  (forall b' : nat, b' <> bt -> ~ In b' (concat bss') -> hblock h' b' = hblock h b') /\
+  (forall j : nat, nth j bss' [] = w_bkeep per (nth j bss []) (nth j t [])) /\
+  (forall x : nat, In x (concat bss') -> In x (concat bss)).
+Proof. exact src_table_clearAllAccounting_full. Qed.
+Print Assumptions C04_src_table_clearAllAccounting_full.
+
+Theorem C04_table_at_update :
+  forall (h h' : heap) (bt : nat) (bss : list (list nat)) (t : table) (i : nat) (bsi' : list nat) (bi' : bucket),
+  table_at h bt bss t ->
+  i < nbuckets ->
+  list_at h' (HPtr bt (BinInt.Z.of_nat i)) bsi' bi' ->
+  length h' = length h ->
+  (forall b' : nat, b' <> bt -> ~ In b' (nth i bss []) -> ~ In b' bsi' -> hblock h' b' = hblock h b') ->
+  (forall k : nat, k <> i -> nth_error (hblock h' bt) k = nth_error (hblock h bt) k) ->
+  (forall x : nat, In x bsi' -> forall j : nat, j <> i -> ~ In x (nth j bss [])) ->
+  table_at h' bt (tw_set i bsi' bss) (set_b i bi' t).
+Proof. exact table_at_update. Qed.
+Print Assumptions C04_table_at_update.
+
+Theorem C04_tw_hash :
+  forall (fuel : nat) (h : heap) (this : hptr) (a : N),
+  (a < 2 ^ 64)%N -> src_table_hash fuel h this (BinInt.Z.of_N a) = FOk (BinInt.Z.of_nat (hashN a)).
+Proof. exact tw_hash. Qed.
+Print Assumptions C04_tw_hash.
